@@ -237,6 +237,40 @@ def run_blocked(case) -> dict:
             f = f.f_back
         if [x.pyframe for x in st.frames] != chain[::-1]:
             probs.append("blocked thread: the frames are not exactly the thread's f_back chain, outermost first")
+        if case.get("two_inspectors"):
+            # two inspecting threads at once, with different options, overlapping but not nested: A (default options) starts and is held
+            # in the middle of its extraction; B (with_contexts=False) starts and is held in the middle of its own; A goes on and finishes
+            # while B is still inside; then B finishes
+            class Gate:
+                def __init__(s):
+                    s.held, s.go = threading.Event(), threading.Event()
+
+            @stackscope.unwrap_stackitem.register(Gate)
+            def _gate(g):
+                g.held.set()
+                g.go.wait(10)
+                return t          # ... and only then goes on to the blocked thread
+
+            ga, gb, res2 = Gate(), Gate(), {}
+            ta = threading.Thread(target=lambda: res2.__setitem__("a", stackscope.extract(ga)), daemon=True)
+            tb_ = threading.Thread(target=lambda: res2.__setitem__("b", stackscope.extract(gb, with_contexts=False)), daemon=True)
+            ta.start()
+            ga.held.wait(5)
+            tb_.start()
+            gb.held.wait(5)
+            ga.go.set()
+            ta.join(10)
+            gb.go.set()
+            tb_.join(10)
+            st_a, st_b = res2.get("a"), res2.get("b")
+            a_ctx = [len(f.contexts) for f in st_a.frames if f.funcname == "level"] if st_a is not None else None
+            want_ctx = [len(m) for m in mgrs[:depth + 1]]
+            if a_ctx != want_ctx:
+                probs.append(f"inspector A (default options) finishing while inspector B (with_contexts=False) is in the middle of its "
+                             f"extraction: contexts per level {a_ctx}, the blocked thread holds {want_ctx}")
+            if st_b is None or any(f.contexts for f in st_b.frames) or [f.funcname for f in st_b.frames if f.funcname == "level"] != ["level"] * (depth + 1):
+                probs.append(f"inspector B (with_contexts=False) overlapped by inspector A: "
+                             f"{None if st_b is None else [(f.funcname, len(f.contexts)) for f in st_b.frames][:6]}")
         lv = [f for f in mine if f.funcname == "level"]
         for k, f in enumerate(lv):
             got = [c.obj for c in f.contexts]
@@ -368,6 +402,8 @@ class C07(PropCheck):
                 out.append({"k": "blocked", "depth": depth, "nest": [rng.randint(0, 3) for _ in range(depth + 1)], "leaf": len(out) % 11})
                 if len(out) % 4 == 1:
                     out.append(dict(out[-1], during_detection=True, nest=[max(1, x) for x in out[-1]["nest"]]))
+        for d_ in (1, 3):
+            out.append({"k": "blocked", "depth": d_, "nest": [rng.randint(1, 3) for _ in range(d_ + 1)], "leaf": 2, "two_inspectors": True})
         for style in range(11):          # every way of being blocked, at least once whatever the seed
             out.append({"k": "blocked", "depth": 1, "nest": [rng.randint(0, 2), rng.randint(0, 2)], "leaf": style})
         scheds: List[dict] = [{}]
